@@ -6,7 +6,7 @@ experiments_to_tuples, experiments_to_dicts, sample_mismatch_experiment (their e
 synthesized result, or a result synthesized from a separate fresh block when there is none yet).
 Blocks: plain; implied derived factor; hidden weight factor with a rewritten constraint; continuous factor; derived
 continuous factors (same-trial, window) with a ContinuousConstraint; Repeat with a preamble; LatinSquare over two
-three-level factors (one diagonal segment).
+three-level factors (one diagonal segment); hidden weight factor together with a continuous factor.
 ALL histories up to the depth bound are executed on a freshly built block each (a state is the history that reaches it);
 the canonical state (names of design / act_design / continuous factors, constraint classes, excluded levels, errors, trial
 count) is hashed to count distinct states.
@@ -20,7 +20,7 @@ import random
 from vt import core, dsw, gen, build as B, ref as R
 
 PROP = 'C19'
-RULE = ('7 representative blocks x all histories of length <= 3 (thorough 4) over 11 operations; item = (block, first operation); '
+RULE = ('8 representative blocks x all histories of length <= 3 (thorough 4) over 11 operations; item = (block, first operation); '
         'states = distinct canonical block states seen, transitions = operations executed; non-trivial = the history contains a synthesis '
         'call after some other call.')
 ASSUMPTIONS = ['validity of the discrete part by the reference membership oracle (vt/ref.py); continuous values are C22\'s subject']
@@ -28,7 +28,7 @@ BUDGET_S = {'quick': 150, 'thorough': 1200}
 DEPTH = {'quick': 3, 'thorough': 4}
 OPS = ['synth_sat', 'synth_rnd', 'synth_rnd_many', 'synth_iter', 'synth_cms', 'print', 'tabulate', 'csv', 'tuples', 'dicts', 'mismatch']
 MANY = 20
-BLOCKS = ['plain', 'implied', 'hidden', 'continuous', 'derived_continuous', 'repeat_preamble', 'latin']
+BLOCKS = ['plain', 'implied', 'hidden', 'continuous', 'derived_continuous', 'repeat_preamble', 'latin', 'hidden_continuous']
 
 
 def make(kind):
@@ -54,6 +54,13 @@ def make(kind):
                                                   'constraints': [{'c': 'MinimumTrials', 'k': 5}]}}
     else:
         spec = {'factors': [A, Bf], 'block': gen.cross(['A', 'B'], ['A'], [])}
+    if kind == 'hidden_continuous':
+        # a weighted factor outside the crossing (internal weight factor) together with a continuous factor
+        Aw = gen.basic('A', 2, [2, 1])
+        spec = {'factors': [Aw, Bf], 'block': gen.cross(['A', 'B'], ['B'], [])}
+        objs = B.build_factors(spec)
+        X = sp.ContinuousFactor('X', distribution=sp.UniformDistribution(0.0, 1.0))
+        return sp.CrossBlock([objs['A'], objs['B'], X], [objs['B']], []), spec, ['A', 'B', 'X']
     if kind in ('continuous', 'derived_continuous'):
         objs = B.build_factors(spec)
         X = sp.ContinuousFactor('X', distribution=sp.UniformDistribution(0.0, 1.0))
